@@ -106,6 +106,20 @@ def holdsCaretsFont (i : Input) (u : UserGdef) (obs : List (String × List Int))
       | some g => strictInc e.2 && sameMembers e.2 (caretCoords i.quant g)
       | none => false)
 
+/-! ### carets of a variable build -/
+
+/-- the caret positions of one source of the glyph: every caret anchor's own rounded coordinate -/
+def caretCoordsVar (al : List Anchor) : List Int :=
+  al.filterMap (fun a => (ownCaret a).map otRound)
+
+/-- **carets, variable build** (what the GDEF writer emits for one glyph): in every source of the designspace the
+values of the emitted carets are exactly that source's caret positions, and the carets are in increasing order
+of their value in the first source that has them (for the generated designspaces: the default source) -/
+def holdsCaretsVar (g : VarGlyph) (obs : List VCaret) : Bool :=
+  (List.range g.sources.length).all (fun k =>
+    sameMembers (obs.filterMap (·.at k)) (caretCoordsVar (g.sources.getD k []))) &&
+  decide ((obs.map caretKey).Pairwise (· ≤ ·))
+
 /-! ### cursive attachment -/
 
 /-- the name of an anchor that has one (an absent or empty name is no name) -/
